@@ -422,7 +422,9 @@ def main():
     if forb:
         broken.append("forbidden constructs: " + "; ".join(forb))
     if not res["ok"]:
-        broken.append("obligations not discharged: " + ", ".join(res["failed"]))
+        m = re.search(r'File "([^"]+)", line (\d+)[^\n]*\n((?:[^\n]*\n){0,4})', res.get("log", ""))
+        first = (f" ; first Coq error: {m.group(1)}:{m.group(2)}: " + " ".join(m.group(3).split())[:300]) if m else ""
+        broken.append("obligations not discharged: " + ", ".join(res["failed"]) + first)
     driver = V.build_model(CID) if translator_ok else None
     if driver is None and translator_ok:
         broken.append("extraction of the model/checker no longer compiles")
